@@ -76,5 +76,19 @@ impl PartialOrd for Fq2 {
             return b
         u.add(u.real_fn(mod, f'impl EncodedPoint for {enc}', 'from_affine', f"    ensures ret.0@ == enc_{k}{n}(affine.a())", ret='ret', vis='pub', body_edit=edit))
         u.add("}")
+    # CurveAffine::into_compressed / into_uncompressed: trait defaults (lib.rs), written out at G1Affine / G2Affine (R6: Self::Compressed and the
+    # `<T as EncodedPoint>::` path resolved at the instantiation)
+    for g, n, aff in (('G1', '1', 'G1Affine'), ('G2', '2', 'G2Affine')):
+        u.add(f"impl {aff} {{")
+        for fn, enc, k in (('into_compressed', f'{g}Compressed', 'c'), ('into_uncompressed', f'{g}Uncompressed', 'u')):
+            assoc = 'Compressed' if k == 'c' else 'Uncompressed'
+
+            def sub(t, enc=enc, assoc=assoc):
+                if f'<Self::{assoc} as EncodedPoint>::from_affine' not in t and f'Self::{assoc}' not in t:
+                    raise weave.AnchorLost(f"{fn}: trait default no longer has the expected form")
+                return t.replace(f'<Self::{assoc} as EncodedPoint>::from_affine', f'{enc}::from_affine').replace(f'Self::{assoc}', enc)
+            u.add(u.real_fn('', 're:pub trait CurveAffine\\b', fn, f"    ensures ret.0@ == enc_{k}{n}(self.a())", ret='ret', vis='pub', sig_edit=sub, body_edit=sub))
+            u.rewrites['R6'] = u.rewrites.get('R6', 0) + 2
+        u.add("}")
     u.close = "} // mod code\n"
     return u
